@@ -23,6 +23,11 @@ package dns
 //@   assert at "if !IsSubDomain(ownerZone" split: ownerZone == owner[labelIndices[1]:] && ownerHash == owner[:labelIndices[1]-1]
 //@   exit zone:     ret0 ==> callres("IsSubDomain")
 //@   exit strict:   ret0 ==> nameHash != ownerHash
+// no name is covered when its hash could not be computed (unknown hash algorithm: HashName returns ""), and the
+// next hashed owner is compared in upper case like the owner hash and the computed hash (base32hex is case
+// insensitive; the zone parser stores the field as written)
+//@   exit hashed:   ret0 ==> len(nameHash) > 0
+//@   assert after "nextHash := " nextupper: nextHash == callres("ToUpper") && callarg("ToUpper", 0) == rr.NextDomain
 //@   exit interval: callres("IsSubDomain") ==> ret0 == ((ownerHash == nextHash) ? (nameHash != ownerHash) : (strlt(nextHash, ownerHash) ? (strlt(ownerHash, nameHash) || strlt(nameHash, nextHash)) : (strlt(ownerHash, nameHash) && strlt(nameHash, nextHash))))
 
 //@ func (*NSEC3).Match [C17]
